@@ -51,7 +51,49 @@ impl FarmSim {
             FOp::Config { which, value } => self.op_config(*which, *value, st),
             FOp::Bad(a, b) => self.op_bad(*a, *b, st),
             FOp::Churn { user, lp, rounds, amount, emergency } => self.op_churn(*user, *lp, *rounds, *amount, *emergency, st),
+            FOp::ExitOneOfTwo { user, lp, amount, other, close_first } => self.op_exit_one_of_two(*user, *lp, *amount, *other, *close_first, st),
         }
+    }
+
+    fn op_exit_one_of_two(&mut self, user: u8, lp: u8, amount: u128, other: u128, close_first: bool, st: &mut Stats) -> Result<(), String> {
+        let owner = self.user(user);
+        let before: std::collections::BTreeSet<String> = self.l.positions_of(owner.as_str()).iter().map(|p| p.id.clone()).collect();
+        self.op_open(user, lp, amount, DAY, None, None, st)?;
+        let id = match self.l.positions_of(owner.as_str()).iter().find(|p| !before.contains(&p.id)) {
+            Some(p) => p.id.clone(),
+            None => return Ok(()),
+        };
+        self.steps += 1;
+        self.op_open(user, lp, other, DAY, None, None, st)?;
+        self.w.advance(DAY);
+        self.steps += 1;
+        self.do_claim(&owner, None, st)?;
+        if close_first {
+            let open: Vec<String> = self.l.open_positions_of(owner.as_str()).iter().map(|p| p.id.clone()).collect();
+            if let Some(k) = open.iter().position(|x| *x == id) {
+                self.steps += 1;
+                self.op_close_pos(user, Self::idx_for(k, open.len()), &None, false, false, st)?;
+            }
+        }
+        let all: Vec<String> = self.l.positions_of(owner.as_str()).iter().map(|p| p.id.clone()).collect();
+        let Some(k) = all.iter().position(|x| *x == id) else { return Ok(()) };
+        self.steps += 1;
+        self.op_withdraw_pos(user, Self::idx_for(k, all.len()), Some(true), false, None, st)?;
+        if self.l.positions.contains_key(&id) {
+            return Ok(());
+        }
+        st.bump("one of two positions left by an emergency withdrawal");
+        if self.penalty_bp == 0 {
+            st.bump("one of two positions left by an emergency withdrawal at 0% penalty");
+        }
+        self.w.advance(2 * DAY);
+        for u in self.w.users.clone() {
+            if !self.l.open_positions_of(u.as_str()).is_empty() {
+                self.steps += 1;
+                self.do_claim(&u, None, st)?;
+            }
+        }
+        Ok(())
     }
 
     /// index value that makes the ordinary operations pick element k of n
